@@ -1,6 +1,7 @@
 """C05 -- representations are word homomorphisms (U1, HAD, INV, FOLD, CONJ, DU, W1)."""
 from ..rules import rep_rules as R
 from ..rules import cache_rules as CA
+from ..rules import sibling_rules as SI
 from ..rules.common import u1, n1
 
 REP = R.REP
@@ -28,6 +29,8 @@ def run(ctx):
     ctx.do(n1, ["geometry_tools/representation.py"])
     ctx.do(CA.rule_c2, "Representation")
     ctx.do(R.rule_zs1)
+    ctx.do(SI.rule_gen_order)
+    ctx.do(SI.rule_elt1)
     ctx.do(u1, ENTRIES, min_functions=30)
     ctx.r.assume("the homomorphism law over all words and matrices, free "
                  "reduction and the Fox fundamental formula are numerical / "
